@@ -293,7 +293,8 @@ def oracle(ctx, seeds=None):
             # (At rest the code falls back to the absolute perturbation epsdiff*1.0, which is only meaningful for O(1) units: O5.)
             if model != 'burgers' and min(abs(np.mean(np.abs(cfg['prim'][1]))), 1.0) < 0.05:
                 cfg['prim'][1] = [float(x + 0.5) for x in cfg['prim'][1]]
-            cfg1d.rescale_units(cfg, 2.0 ** int(rng.integers(-30, 31)), 2.0 ** int(rng.integers(-15, 16)))
+            # (deterministic cycle of small and large units: a perturbation with an absolute floor or ceiling shows on one of them)
+            cfg1d.rescale_units(cfg, 2.0 ** [-24, 20, -12, 28, -30, 8][(i // 3) % 6], 2.0 ** [3, -9, -15, 12, 0, 6][(i // 3) % 6])
             scaled = True
         ok, b_ = impl.guarded(cfg1d.build, cfg)
         if not ok:
